@@ -163,6 +163,7 @@ class SimFS:
         self.open_files = weakref.WeakSet()   # file objects the process has not closed (yet)
         self.killed = False
         self.kill_keep = 0.0
+        self.escapes = []
         self.clock = None           # the op's SimClock (file timestamps come from the simulated clock)
         self.disk_time = 1.7e9      # simulated time of the last timestamp handed out
 
@@ -219,7 +220,13 @@ class SimFS:
             return _REAL_OPEN(file, mode, *a, **kw)
         rel = self._rel(file)
         if rel is None:
-            # outside the simulated disk (interpreter internals): untouched
+            if any(c in mode for c in "wax+") and not os.fspath(file).startswith(("/dev/", "/proc/")):
+                # the code under test tries to write outside the simulated disk: never let it
+                # touch the real machine; it sees a read-only file system
+                self._event("escape:" + mode, os.fspath(file), 0)
+                self.escapes.append(os.fspath(file))
+                raise OSError(ERRNOS["EROFS"], os.strerror(ERRNOS["EROFS"]), os.fspath(file))
+            # reads outside the simulated disk (interpreter internals, the repo's own files): untouched
             return _REAL_OPEN(file, mode, *a, **kw)
         self._event("open:" + mode, rel, 0)
         flt = self._fault("open", rel, mode)
@@ -392,6 +399,7 @@ class World:
         self.prev_cwd = os.getcwd()
         os.chdir(self.root)
         self.fs = SimFS(self.root, stepclock)
+        proc.SCRIPT_DIR = self.root
         self.repo_files = frozenset(snap.paths.values())
         self.virtual_seconds = 0.0
         self.total_steps = 0
@@ -564,6 +572,10 @@ class World:
         out["clock_odd"] = clk.odd
         for k in fs.fired:
             self.fired("io-" + k)
+        if fs.escapes:
+            self.probe("write-outside-simulated-disk-blocked", len(fs.escapes))
+            out["escapes"] = list(fs.escapes)
+            fs.escapes = []
         if out["status"] == "interrupt":
             self.fired("kill" if kill else "sigint")
         if sc.interrupt_site is not None and inj is not None:
